@@ -30,17 +30,18 @@ type zzEffect struct {
 }
 
 type zzWorld struct {
-	lastReq  *eni.AllocRequest
-	log      []zzEffect
-	pendingD map[string]bool
-	svc      *networkService
+	noReleaseFaults bool
+	lastReq         *eni.AllocRequest
+	log             []zzEffect
+	pendingD        map[string]bool
+	svc             *networkService
 }
 
 // zzK8s: the API server as seen by the daemon.
 type zzK8s struct {
 	k8s.Kubernetes
 	pod      *daemon.PodInfo
-	getErr   int // 0 ok, 1 not found, 2 other error
+	getErr   int            // 0 ok, 1 not found, 2 other error
 	exists   map[string]int // podID -> 0 exists, 1 gone, 2 lookup error
 	local    []*daemon.PodInfo
 	localErr bool
@@ -163,7 +164,7 @@ func zzService(mode string) (*networkService, *zzWorld, *zzK8s, *zzStore) {
 	})
 	zz.Override(zzMgrRelease, func(m *eni.Manager, ctx context.Context, cni *daemon.CNI, req *eni.ReleaseRequest) error {
 		w.log = append(w.log, zzEffect{kind: "release", key: cni.PodID, res: req.NetworkResources, lock: zz.LockState(&svc.RWMutex)})
-		if zz.Bool("release.fails") {
+		if !w.noReleaseFaults && zz.Bool("release.fails") {
 			return errZZAPI
 		}
 		return nil
